@@ -496,6 +496,20 @@ void ezc3d::c3d::analog(const std::vector<ezc3d::DataNS::Frame> &frames)
     updateParameters();
 }
 
+// The updaters and the frame checks read the first value of these parameters: it must be there
+// (a damaged file, or a parameter set by hand, may hold none)
+static void checkMandatoryValues(const ezc3d::ParametersNS::Parameters &parameters)
+{
+    const ezc3d::ParametersNS::GroupNS::Group& point(parameters.group("POINT"));
+    bool ok(point.parameter("USED").valuesAsInt().size() > 0 && point.parameter("FRAMES").valuesAsInt().size() > 0
+            && point.parameter("RATE").valuesAsFloat().size() > 0);
+    const ezc3d::ParametersNS::GroupNS::Group& analog(parameters.group("ANALOG"));
+    if (analog.nbParameters())
+        ok = ok && analog.parameter("USED").valuesAsInt().size() > 0 && analog.parameter("RATE").valuesAsFloat().size() > 0;
+    if (!ok)
+        throw std::invalid_argument("POINT:USED, POINT:FRAMES, POINT:RATE, ANALOG:USED and ANALOG:RATE must hold a value");
+}
+
 // Frames created by extending the data set are left empty,
 // the shape of the data is therefore given by the first frame that holds something
 static size_t firstFilledFrame(const ezc3d::DataNS::Data &data)
@@ -508,6 +522,7 @@ static size_t firstFilledFrame(const ezc3d::DataNS::Data &data)
 
 void ezc3d::c3d::updateHeader()
 {
+    checkMandatoryValues(parameters());
     // Parameter is always consider as the right value. If there is a discrepancy between them, change the header
     float pointRate(parameters().group("POINT").parameter("RATE").valuesAsFloat()[0]);
     float buffer(10000); // For decimal truncature
